@@ -82,6 +82,61 @@ def cross_type_events(env, rng, thorough):
     return events
 
 
+def lookalike_events(env, rng, thorough):
+    """Units of different quantity types that differ only in letter case (S / s, pA / Pa, ...), and targets written as a list of
+    (unit, exponent) factors with a factor too many: all of them are incompatible and must be refused."""
+    from barril.units import Array, FractionScalar, ObtainQuantity, Scalar
+
+    db = env.db
+    bylow = {}
+    for u, info in db.unit_to_unit_info.items():
+        bylow.setdefault(u.lower(), []).append((u, info.quantity_type))
+    events = []
+
+    def rec(name, fn, frm, to, objs=()):
+        pre_reg = repr(qalg.light_digest(db))
+        pre_ops = json.dumps([P.value_obj(x) for x in objs], sort_keys=True)
+        o = P.outcome(fn)
+        events.append({"op": "Reject", "call": name, "from": frm, "to": to, "family": "ok" if o[0] == "ok" else o[1], "cls": "" if o[0] == "ok" else o[2],
+                       "reg_pre": pre_reg, "reg_post": repr(qalg.light_digest(db)), "ops_pre": pre_ops, "ops_post": json.dumps([P.value_obj(x) for x in objs], sort_keys=True)})
+
+    for low, group in sorted(bylow.items()):
+        for u1, q1 in group:
+            for u2, q2 in group:
+                if u1 == u2 or q1 == q2 or "Unknown" in (q1, q2) or "dimensionless" in (q1, q2):
+                    continue
+                c2 = db.GetDefaultCategory(u2)
+                if not c2:
+                    continue
+                s2 = Scalar(1.0, u2, c2)
+                a2 = Array(c2, [1.0, 2.0], u2)
+                for name, fn in (("Scalar(x,u,cat) with a unit that differs only in case from one of the category's", lambda: Scalar(1.0, u1, c2)),
+                                 ("Array(cat,xs,u) lookalike", lambda: Array(c2, [1.0], u1)), ("FractionScalar(cat,x,u) lookalike", lambda: FractionScalar(c2, value=1.5, unit=u1)),
+                                 ("ObtainQuantity(u,cat) lookalike", lambda: ObtainQuantity(u1, c2)), ("Scalar.CreateCopy(value, unit) lookalike", lambda: s2.CreateCopy(value=2.0, unit=u1)),
+                                 ("Scalar.GetValue(u) lookalike", lambda: s2.GetValue(u1)), ("Array.GetValues(u) lookalike", lambda: a2.GetValues(u1)),
+                                 ("db.Convert(cat,u,v,x) lookalike", lambda: db.Convert(c2, u2, u1, 1.0))):
+                    rec(name, fn, [q1, u1], [q2, u2], (s2, a2))
+    # composed targets / sources with one factor too many (the list-of-(unit, exponent) form)
+    qts = [q for q in db.quantity_types if q not in ("Unknown", "dimensionless") and db.GetDefaultCategory(db.GetBaseUnit(q))]
+    for _ in range(400 if thorough else 80):
+        qa, qb = rng.sample(qts, 2)
+        ua, ub = rng.choice(db.GetUnits(qa)), rng.choice(db.GetUnits(qb))
+        ua2 = rng.choice(db.GetUnits(qa))
+        ca = db.GetDefaultCategory(ua)
+        if not ca:
+            continue
+        s, a = Scalar(2.0, ua, ca), Array(ca, [2.0, 3.0], ua)
+        sq = s * s
+        for name, fn in (("db.Convert(qt,u,[(v,1),(w,1)],x): a factor too many in the target", lambda: db.Convert(qa, ua, [(ua2, 1), (ub, 1)], 2.0)),
+                         ("db.Convert(qt,[(u,1),(w,1)],v,x): a factor too many in the source", lambda: db.Convert(qa, [(ua, 1), (ub, 1)], ua2, 2.0)),
+                         ("Quantity.Convert(x,[(v,1),(w,1)])", lambda: ObtainQuantity(ua, ca).Convert(2.0, [(ua2, 1), (ub, 1)])),
+                         ("Scalar.GetValue([(v,1),(w,1)])", lambda: s.GetValue([(ua2, 1), (ub, 1)])),
+                         ("Array.GetValues([(v,1),(w,1)])", lambda: a.GetValues([(ua2, 1), (ub, 1)])),
+                         ("(Scalar*Scalar).GetValue([(v,2),(w,-1)])", lambda: sq.GetValue([(ua2, 2), (ub, -1)]))):
+            rec(name, fn, [qa, ua], [qb, ub], (s, a, sq))
+    return events
+
+
 def reused_symbol_events(rng, thorough):
     """A history of registrations: an application registers its own quantity type whose unit reuses a symbol of the table.  Either the
     registration is refused, or the two quantity types still cannot be added / subtracted / ordered."""
@@ -115,6 +170,7 @@ def main(tier):
     rep, bd, env, stats = qalg.run("C05", tier, "fail", "")
     rng = random.Random(common.seed() + 5)
     events = cross_type_events(env, rng, tier == "thorough")
+    events += lookalike_events(env, rng, tier == "thorough")
     more, refused = reused_symbol_events(rng, tier == "thorough")
     rep.cov["registrations_reusing_a_symbol_refused"] = refused
     events += more
